@@ -36,10 +36,18 @@ class C19(Prop):
     N_THOROUGH = 12000
     RULE = ("point sets of 1-14 points x 1-4 objectives over small integers/dyadics with forced duplicates, "
             "coordinate ties and collinear fronts, weight vectors with mixed signs; dominance pairs with "
-            "feasible/infeasible mixes; distance transforms in the three source variants.  Non-trivial = "
+            "feasible/infeasible mixes; distance transforms in the three source variants (constant objectives, "
+            "fronts at a large level, single-objective fronts, fronts collinear with the preference line = "
+            "distance exactly 0), translation pairs (the same front translated by a large vector).  Non-trivial = "
             "pareto case with >= 2 distinct points and at least one dominated or duplicated point, "
-            "dominates case with differing objective vectors, dist case with >= 2 points and >= 2 objectives")
-    TRUSTED = ["numpy.linalg.norm = sqrt of sum of squares (model compares squared distances)"]
+            "dominates case with differing objective vectors, dist case with >= 2 points and >= 2 objectives, "
+            "dist_pair case with >= 2 points, >= 2 objectives and a non-zero translation")
+    TRUSTED = ["numpy.linalg.norm = sqrt of sum of squares (model and Spec compare squared distances; the "
+               "implementation's distances are squared exactly in Fraction arithmetic before they are sent)"]
+    # tolerance rule of the distance Spec (same as canon.close's defaults, as exact rationals)
+    REL = Fraction(1, 10 ** 9)
+    ABS = Fraction(1, 10 ** 12)
+    ABS_ZERO = Fraction(1, 10 ** 18)     # fronts collinear with the line: |d| <= 1e-9
     ASSUMPTIONS = ["inputs are integers / dyadic rationals so that the float computation is exact up to 1e-9",
                    "NaN output of the unguarded transformation is modelled as `none`"]
 
@@ -56,6 +64,22 @@ class C19(Prop):
             {"kind": "dist", "variant": "prob", "mat": [[8388609, 2], [8388610, 1], [8388608, 0]], "sign": [1, 1], "line": [1, 2]},
             {"kind": "dist", "variant": "transfn", "mat": [[1000001, 2], [1000002, 1], [1000000, 0]], "sign": [1, -1], "line": [2, 1]},
             {"kind": "dist", "variant": "core", "mat": [[1000001, 2], [1000002, 1], [1000000, 0]], "sign": [-1, 1], "line": [1, 1]},
+            # single objective: every point lies on the line
+            {"kind": "dist", "variant": "core", "mat": [[3], [5], [4]], "sign": [-1], "line": [2], "expect_zero": True},
+            {"kind": "dist", "variant": "prob", "mat": [[7]], "sign": [1], "line": [1], "expect_zero": True},
+            {"kind": "dist", "variant": "transfn", "mat": [[2], [2]], "sign": [1], "line": [3], "expect_zero": True},
+            # fronts collinear with the preference line after scaling: distance exactly 0
+            {"kind": "dist", "variant": "core", "mat": [[0, 10], [1, 12], [4, 18], [2, 14]], "sign": [1, 1],
+             "line": [1, 1], "expect_zero": True},
+            {"kind": "dist", "variant": "prob", "mat": [[0, 10, 5], [1, 12, 5], [4, 18, 5]], "sign": [-1, -1, 1],
+             "line": [2, 2, 0], "expect_zero": True},
+            # translation pairs
+            {"kind": "dist_pair", "variant": "core", "mat": [[1, 2], [2, 1], [0, 0]], "shift": [8388608, -10000000],
+             "sign": [1, -1], "line": [1, 2]},
+            {"kind": "dist_pair", "variant": "prob", "mat": [[1, 2], [2, 1], [0, 0]], "shift": [1048576, 12345678],
+             "sign": [1, 1], "line": [1, 2]},
+            {"kind": "dist_pair", "variant": "transfn", "mat": [["1/2", 2, 3], [2, 1, 3], [0, 0, 3]],
+             "shift": [1000000, 0, -8388608], "sign": [-1, 1, 1], "line": [0, 1, 3]},
             {"kind": "dominates", "obj1": [1, 2], "cv1": -2, "obj2": [1, 1], "cv2": 0},
             {"kind": "dominates", "obj1": [1, 2], "cv1": 0, "obj2": [1, 2], "cv2": 0},
             {"kind": "dominates", "obj1": [1, 2], "cv1": 1, "obj2": [0, 0], "cv2": 2},
@@ -93,6 +117,40 @@ class C19(Prop):
                 cv = lambda: rng.choice([0, 0, -1, Fraction(1, 2), 1, 2])
                 out.append({"kind": "dominates", "obj1": o1, "cv1": canon.enc(cv()), "obj2": o2,
                             "cv2": canon.enc(cv())})
+            elif r < 0.84:
+                pts, nobj = self._points(rng)
+                if rng.random() < 0.3:                   # one constant objective
+                    j = rng.randrange(nobj)
+                    for p in pts:
+                        p[j] = pts[0][j]
+                shift = [rng.choice([0, 3, -1, 2 ** 20, 10 ** 6, 2 ** 23, -(10 ** 7), 12345678]) for _ in range(nobj)]
+                if not any(abs(v) > 1000 for v in shift):
+                    shift[rng.randrange(nobj)] = rng.choice([2 ** 20, 10 ** 6, 2 ** 23, -(10 ** 7)])
+                sign = [rng.choice([1, -1]) for _ in range(nobj)]
+                line = [rng.choice([0, 1, 1, 2, 3]) for _ in range(nobj)]
+                if not any(line):
+                    line[rng.randrange(nobj)] = 1
+                out.append({"kind": "dist_pair", "variant": rng.choice(["core", "prob", "transfn"]),
+                            "mat": canon.enc(pts), "shift": shift, "sign": sign, "line": line})
+            elif r < 0.89:
+                # front collinear with the preference line: objective j is a_j + u_i * 2^k_j where the line is
+                # non-zero, constant where it is zero; u takes the values 0 and 1 => scaled point = u_i * (1,..,1)
+                npt = rng.choice([1, 2, 3, 5, 8])
+                nobj = rng.choice([1, 1, 2, 3, 4])
+                c = rng.choice([1, 2, 3])
+                line = [c * rng.choice([0, 1, 1]) for _ in range(nobj)]
+                if not any(line):
+                    line[rng.randrange(nobj)] = c
+                us = [Fraction(rng.randint(0, 8), 8) for _ in range(npt)]
+                if npt >= 2:
+                    us[0], us[1] = Fraction(0), Fraction(1)
+                    rng.shuffle(us)
+                sg = rng.choice([1, -1])
+                a = [rng.choice([0, 1, -3, 2 ** 20, 10 ** 6]) for _ in range(nobj)]
+                k = [2 ** rng.randint(0, 4) for _ in range(nobj)]
+                pts = [[a[j] + (u * k[j] if line[j] else 0) for j in range(nobj)] for u in us]
+                out.append({"kind": "dist", "variant": rng.choice(["core", "prob", "transfn"]),
+                            "mat": canon.enc(pts), "sign": [sg] * nobj, "line": line, "expect_zero": True})
             else:
                 pts, nobj = self._points(rng)
                 if rng.random() < 0.3 and nobj >= 1:     # one constant objective
@@ -125,19 +183,43 @@ class C19(Prop):
             r = addon.dominates(numpy.array([_f(v) for v in case["obj1"]]), _f(case["cv1"]),
                                 numpy.array([_f(v) for v in case["obj2"]]), _f(case["cv2"]))
             return {"dom": bool(r)}
-        if k == "dist":
-            mat = _arr(case["mat"])
+        if k in ("dist", "dist_pair"):
             sign = numpy.array([float(v) for v in case["sign"]])
             line = numpy.array([float(v) for v in case["line"]])
             v = case["variant"]
-            if v == "core":
-                d = ctrans.trans_ndpt_pseudo_dist(mat, sign, line)
-            elif v == "prob":
-                d = ptrans.trans_ndpt_to_vec_dist(mat, line, sign)   # (mat, obj_wt=line, vec_wt=sign)
-            else:
-                d = transfn.trans_ndpt_to_vec_dist(mat, line, sign)  # (mat, objfn_wt=line, wt=sign)
-            return {"d": canon.enc(d)}
+
+            def call(rows):
+                mat = _arr(rows)
+                if v == "core":
+                    d = ctrans.trans_ndpt_pseudo_dist(mat, sign.copy(), line.copy())
+                elif v == "prob":
+                    d = ptrans.trans_ndpt_to_vec_dist(mat, line.copy(), sign.copy())   # (mat, obj_wt=line, vec_wt=sign)
+                else:
+                    d = transfn.trans_ndpt_to_vec_dist(mat, line.copy(), sign.copy())  # (mat, objfn_wt=line, wt=sign)
+                return canon.enc(d)
+
+            if k == "dist":
+                return {"d": call(case["mat"])}
+            return {"d": call(case["mat"]), "dt": call(self._translated(case))}
         raise ValueError(k)
+
+    @staticmethod
+    def _translated(case):
+        """the front of a dist_pair case translated by its shift (exact, canonical encoding)"""
+        return canon.enc([[Fraction(v) + Fraction(o) for v, o in zip(r, case["shift"])] for r in case["mat"]])
+
+    @staticmethod
+    def _sq(d):
+        """implementation distances -> exact squares as canonical rationals (None for NaN / inf)"""
+        out = []
+        for x in d:
+            y = canon.dec(x)
+            out.append(None if isinstance(y, str) or y is None else canon.enc(y * y))
+        return out
+
+    def _spec_req(self, case, mat, d, abs_=None):
+        return {"op": "c19.spec_dist", "mat": mat, "sign": case["sign"], "line": case["line"], "d2": self._sq(d),
+                "rel": canon.enc(self.REL), "abs": canon.enc(self.ABS if abs_ is None else abs_)}
 
     # ------------------------------------------------------------------ model requests
     def requests(self, case, obs):
@@ -149,8 +231,17 @@ class C19(Prop):
         if k == "dominates":
             return [{"op": "c19.dominates", **{x: case[x] for x in ("obj1", "cv1", "obj2", "cv2")}}]
         if k == "dist":
+            abs_ = self.ABS_ZERO if case.get("expect_zero") else self.ABS
             return [{"op": "c19.dist", "mat": case["mat"], "sign": case["sign"], "line": case["line"],
-                     "guarded": True}]
+                     "guarded": True},
+                    self._spec_req(case, case["mat"], obs["d"], abs_)]
+        if k == "dist_pair":
+            mt = self._translated(case)
+            return [{"op": "c19.dist", "mat": case["mat"], "sign": case["sign"], "line": case["line"],
+                     "guarded": True},
+                    {"op": "c19.dist", "mat": mt, "sign": case["sign"], "line": case["line"], "guarded": True},
+                    self._spec_req(case, case["mat"], obs["d"]),
+                    self._spec_req(case, mt, obs["dt"])]
         raise ValueError(k)
 
     def judge(self, case, obs, answers):
@@ -182,46 +273,81 @@ class C19(Prop):
         if k == "dist":
             m = answers[0]["ok"]
             d = obs["d"]
-            isnan = [x == "nan" for x in d]
-            if m is None:
-                corr = all(isnan) and len(d) > 0
-            else:
-                corr = (not any(isnan)) and len(m) == len(d) and all(
-                    not isinstance(canon.dec(x), str) and
-                    canon.close(canon.dec(x) ** 2, canon.dec(y), rel=1e-9, abs_=1e-12) for x, y in zip(d, m))
-            # Spec: finite, and equal to the geometric definition (recomputed independently, exact)
-            spec, why = self._spec_dist(case, d)
+            corr = self._corr_dist(m, d)
+            # Spec: finite, one per point, equal to the geometric definition — evaluated in Lean
+            # (Pareto.specDist, proved to accept the model's output: C19.Q_spec_dist_sound) on the
+            # implementation's exact squared distances; the Python twin must give the same verdict
+            abs_ = self.ABS_ZERO if case.get("expect_zero") else self.ABS
+            spec, why = self._lean_spec(case, case["mat"], d, answers[1]["ok"], abs_)
+            if case.get("expect_zero") and m is not None:
+                corr = corr and all(canon.dec(y) == 0 for y in m)    # exact 0 in the model
             nontriv = len(case["mat"]) >= 2 and len(case["sign"]) >= 2
             return {"corr": corr, "spec": spec, "nontrivial": nontriv,
                     "detail": f"dist[{case['variant']}] model={m} impl={d} {why}"}
+        if k == "dist_pair":
+            m, mt = answers[0]["ok"], answers[1]["ok"]
+            d, dt = obs["d"], obs["dt"]
+            # model side: translation invariance is a theorem (C19.Q_dist_translation_invariant): exact equality
+            corr = self._corr_dist(m, d) and self._corr_dist(mt, dt) and m == mt
+            s0, why0 = self._lean_spec(case, case["mat"], d, answers[2]["ok"], self.ABS)
+            s1, why1 = self._lean_spec(case, self._translated(case), dt, answers[3]["ok"], self.ABS)
+            finite = all(not isinstance(canon.dec(x), str) for x in list(d) + list(dt))
+            same = finite and len(d) == len(dt) and all(
+                canon.close(canon.dec(x), canon.dec(y), rel=1e-9, abs_=1e-9) for x, y in zip(d, dt))
+            spec = s0 and s1 and same
+            nontriv = len(case["mat"]) >= 2 and len(case["sign"]) >= 2 and any(case["shift"])
+            return {"corr": corr, "spec": spec, "nontrivial": nontriv,
+                    "detail": f"dist_pair[{case['variant']}] model={m} impl={d} impl_translated={dt} "
+                              f"translation_invariant={same} original: {why0} translated: {why1}"}
         raise ValueError(k)
 
     @staticmethod
-    def _spec_dist(case, d):
-        """geometric definition over exact rationals: scale each signed objective to [0,1]
-        (constant objective -> 0), distance from P to its projection on the preference line"""
+    def _corr_dist(m, d):
+        isnan = [x == "nan" for x in d]
+        if m is None:
+            return all(isnan) and len(d) > 0
+        return (not any(isnan)) and len(m) == len(d) and all(
+            not isinstance(canon.dec(x), str) and
+            canon.close(canon.dec(x) ** 2, canon.dec(y), rel=1e-9, abs_=1e-12) for x, y in zip(d, m))
+
+    def _lean_spec(self, case, mat, d, ans, abs_):
+        """verdict of the Lean Spec op, cross-checked against the independent Python evaluation"""
+        ok = bool(ans["ok"])
+        py_ok, py_why = self._spec_dist(mat, case["sign"], case["line"], d, self.REL, abs_)
+        if py_ok != ok:
+            raise RuntimeError(f"c19.spec_dist ({ok}: {ans['detail']}) and the Python Spec ({py_ok}: {py_why}) "
+                               f"disagree on mat={mat} sign={case['sign']} line={case['line']} d={d}")
+        return ok, ans["detail"]
+
+    @staticmethod
+    def _spec_dist(mat, sign, line, d, rel, abs_):
+        """geometric definition over exact rationals (cross-check of the Lean Spec): scale each signed
+        objective to [0,1] (constant objective -> 0), distance from P to its projection on the preference line"""
         if any(isinstance(canon.dec(x), str) for x in d):
             return False, "non-finite distance"
-        P = [[Fraction(v) * s for v, s in zip(r, case["sign"])] for r in case["mat"]]
-        nobj = len(case["sign"])
+        if len(d) != len(mat):
+            return False, "one distance per point expected"
+        P = [[Fraction(v) * s for v, s in zip(r, sign)] for r in mat]
         cols = list(zip(*P)) if P else []
         sc = []
         for c in cols:
             lo, hi = min(c), max(c)
             sc.append([Fraction(0) if hi == lo else (x - lo) / (hi - lo) for x in c])
         Q = [list(r) for r in zip(*sc)] if sc else []
-        L = [Fraction(v) for v in case["line"]]
+        L = [Fraction(v) for v in line]
         LL = sum(x * x for x in L)
         for q, x in zip(Q, d):
             t = sum(a * b for a, b in zip(q, L)) / LL
             want = sum((a - t * b) ** 2 for a, b in zip(q, L))
-            if not canon.close(canon.dec(x) ** 2, want, rel=1e-9, abs_=1e-12):
+            got = canon.dec(x) ** 2
+            diff = abs(got - want)
+            if not (diff <= abs_ or diff <= rel * max(abs(got), abs(want))):
                 return False, f"distance {x} != sqrt({want})"
         return True, "definition ok"
 
     def signature(self, case, obs, verdict):
         sig = {"kind": case["kind"]}
-        if case["kind"] == "dist":
+        if case["kind"] in ("dist", "dist_pair"):
             sig["variant"] = case["variant"]
             P = [[Fraction(v) * s for v, s in zip(r, case["sign"])] for r in case["mat"]]
             sig["constant_objective"] = any(len(set(c)) == 1 for c in zip(*P))
@@ -229,7 +355,7 @@ class C19(Prop):
         return sig
 
     def shrink(self, case):
-        key = {"pareto": "fmat", "dist": "mat"}.get(case["kind"])
+        key = {"pareto": "fmat", "dist": "mat", "dist_pair": "mat"}.get(case["kind"])
         if key:
             rows = case[key]
             for i in range(len(rows)):
@@ -302,7 +428,48 @@ class C19(Prop):
             P = m.dot(w)[:, None] * w          # projection without 1/(w.w)
             return numpy.linalg.norm(m - P, axis=1)
 
+        def _project(m, w):
+            s = m.dot(w) * (1.0 / w.dot(w))
+            return numpy.linalg.norm(m - numpy.outer(s, w), axis=1)
+
+        def _guarded_scale(m):
+            m = m - m.min(0)
+            mx = m.max(0)
+            mask = mx == 0
+            mx[mask] = 1.0
+            sc = 1.0 / mx
+            sc[mask] = 0.0
+            return sc * m
+
+        def dist_scale_then_shift(mat, obj_wt, vec_wt, **kw):
+            # the division by the column maximum is done before the minimum is subtracted:
+            # no longer invariant to translation of the front
+            m = mat * vec_wt
+            mx = numpy.abs(m).max(0)
+            mask = mx == 0
+            mx[mask] = 1.0
+            sc = 1.0 / mx
+            sc[mask] = 0.0
+            m = sc * m
+            m = m - m.min(0)
+            return _project(m, obj_wt)
+
+        def dist_wrong_vector(mat, objfn_wt, wt, **kw):
+            # projects on the sign vector instead of the preference vector
+            return _project(_guarded_scale(mat * wt), wt)
+
+        def dist_guard_dropped(ndptmat, mm, w, **kw):
+            # the pre-repair scaling (D13): constant objective -> 0 * inf = NaN
+            with numpy.errstate(all="ignore"):
+                m = ndptmat * mm
+                m = m - m.min(0)
+                m = (1.0 / m.max(0)) * m
+                return _project(m, w)
+
         return [
+            ("dist_translation_after_scaling", lambda: patch(ptrans, "trans_ndpt_to_vec_dist", dist_scale_then_shift)),
+            ("dist_projection_on_wrong_vector", lambda: patch(transfn, "trans_ndpt_to_vec_dist", dist_wrong_vector)),
+            ("dist_guard_dropped", lambda: patch(ctrans, "trans_ndpt_pseudo_dist", dist_guard_dropped)),
             ("filter_ge", lambda: patch(pareto, "is_pareto_efficient", ge_filter)),
             ("filter_pt_increment", lambda: patch(pareto, "is_pareto_efficient", inc_filter)),
             ("dominates_any", lambda: patch(addon, "dominates", dom_any)),
